@@ -48,6 +48,7 @@ type entryCfg struct {
 	ExpectPanic bool           `json:"expect_panic,omitempty"`
 	BudgetS     int            `json:"budget_s,omitempty"`
 	Pkg         string         `json:"pkg,omitempty"` // package dir of this entry (default: the property's pkg)
+	NoNativeValidation string  `json:"no_native_validation,omitempty"` // reason why OK-path vectors are not compared with native runs (e.g. real-time dependent)
 }
 
 type morePkg struct {
@@ -492,6 +493,9 @@ func (c *checker) effective0(e entryCfg) entryCfg {
 		if t.MaxPaths == 0 {
 			t.MaxPaths = e.MaxPaths
 		}
+		if t.NoNativeValidation == "" {
+			t.NoNativeValidation = e.NoNativeValidation
+		}
 		return t
 	}
 	return e
@@ -586,7 +590,7 @@ func (c *checker) run(only string) int {
 			inconclusive = append(inconclusive, fmt.Sprintf("%s: vacuous (no path completed)", e.Func))
 		}
 		// translator validation: replay sample vectors of OK paths natively
-		if !c.noReplay {
+		if !c.noReplay && e.NoNativeValidation == "" {
 			for _, v := range rep.Vectors {
 				nr, err := c.runNative(e.Func, replayVec{Tier: c.tier, Bounds: e.Bounds, Inputs: v.Inputs})
 				if err != nil {
@@ -607,7 +611,12 @@ func (c *checker) run(only string) int {
 				}
 				if !okk {
 					validMismatch++
-					mismatches = append(mismatches, fmt.Sprintf("%s: OK-path vector behaves differently natively (exit=%d failed=%q panicked=%v diverged=%v)", e.Func, nr.exit, nr.failed, nr.panicked, nr.diverged))
+					var nrs []string
+					for r := range nr.reached {
+						nrs = append(nrs, r)
+					}
+					sort.Strings(nrs)
+					mismatches = append(mismatches, fmt.Sprintf("%s: OK-path vector behaves differently natively (exit=%d failed=%q panicked=%v diverged=%v engine-reached=%v native-reached=%v inputs=%v)", e.Func, nr.exit, nr.failed, nr.panicked, nr.diverged, v.Reached, nrs, v.Inputs))
 				}
 			}
 		}
